@@ -97,6 +97,9 @@ def gather(rep, run_out, select, diff_select, label):
                 rep.violation('%s/%s/concrete' % (label, s['slot_id']),
                               'real closure disagrees with the contract on a concrete state: %s' % (b['diffs'][:3],),
                               {'obligation': s['slot_id'] + '/crosscheck', 'case': b['case'], 'observed_vs_expected': b['diffs']})
+            rep.extra['engine_selfcheck_samples'] = rep.extra.get('engine_selfcheck_samples', 0) + (s.get('selfcheck') or 0)
+            for b in (s.get('selfcheck_bad') or ())[:1]:
+                rep.errors.append('engine/CPython cross-check failed on %s: %s (the VC generator is unsound here; no verdict)' % (s['slot_id'], b[0]))
             if s.get('refused') or s.get('error'):
                 why = s.get('refused') or s.get('error')
                 if not conc:
